@@ -7,7 +7,7 @@ from props import c03
 
 PROPERTY = 'C05'
 LEVEL = 'exploration'
-RULE = ('(i) slash-context product, enumerated: preceding construct (header parens of if/for/for-in/while/with/'
+RULE = ('(i) slash-context product, enumerated: nesting context (top level, inside function bodies within open parentheses/brackets/object literals, blocks, loop bodies, switch, try) x preceding construct (header parens of if/for/for-in/while/with/'
         'do-while, call/grouping/parameter parens, every kind of closing brace, `]`, identifiers, literals, this/null/'
         'true/false, keyword operators and statement keywords, reserved words as property names, prefix and postfix '
         '++/--, every punctuator after which an operand is expected) x layout (nothing, space, tab, NBSP, LF, block '
@@ -46,11 +46,20 @@ LAYOUTS = ['', ' ', '\t', u'\xa0', '\n', '/*c*/', '//c\n', '/*\n*/', ' /*c*/ ', 
 CONTINUATIONS = ['/ 2 / 1', '/re/.test(x)', '/re/g', '/=/.x', '/= 2', '/[/]/.x / 2']
 
 
-def product_cases():
-    for t in TEMPLATES:
-        for lay in LAYOUTS:
-            for c in CONTINUATIONS:
-                yield t.replace('@', lay + c), (t, lay, c)
+# the same statement nested in contexts that keep parentheses / brackets / braces open around it
+WRAPPERS = ['%s', '(function(){ %s })();', 'f(function(){ %s });', 'x = [function(){ %s }];', 'if (q) { %s }',
+            'for (;;) { %s }', 'while ((function(){ %s })()) ;', 'o = { m: function(){ %s }, n: (1) };',
+            'switch (k) { case (0): %s }', 'try { %s } finally { }']
+
+
+def product_cases(wrappers=None):
+    for wi, w in enumerate(WRAPPERS if wrappers is None else wrappers):
+        for t in TEMPLATES:
+            if wi and ('return' in t and False):
+                continue
+            for lay in LAYOUTS:
+                for c in CONTINUATIONS:
+                    yield w % t.replace('@', lay + c), (t, lay, c, wi)
 
 
 def naive_slash_classes(ref):
@@ -107,9 +116,11 @@ def run_shard(shard):
     opens = shard['open_signatures']
     if shard['kind'] == 'prod':
         n = 0
-        for idx, (text, (t, lay, c)) in enumerate(product_cases()):
+        for idx, (text, (t, lay, c, wi)) in enumerate(product_cases()):
             if idx % shard['of'] != shard['k']:
                 continue
+            if wi and shard['tier'] == 'quick' and (idx // shard['of']) % 5 != shard['seed'] % 5:
+                continue  # quick tier: every wrapped case of wrapper 0, every 5th of the others (phase by seed)
             n += 1
             info = c03.check_text(acc, text, opens, None, 'product')
             acc.case(text, nontrivial(info), {'text': text} if n % 40 == 0 else None)
@@ -135,6 +146,8 @@ def run_shard(shard):
 
 def finish(m, cov, tier):
     total = sum(1 for _ in product_cases())
-    cov['exhaustive'] = True
-    cov['exhaustive_part'] = 'slash-context product: %d templates x %d layouts x %d continuations = %d cases, all run (%d)' % (
-        len(TEMPLATES), len(LAYOUTS), len(CONTINUATIONS), total, m['extra'].get('product_enumerated', 0))
+    cov['exhaustive'] = tier != 'quick'
+    cov['exhaustive_part'] = ('slash-context product: %d wrappers x %d templates x %d layouts x %d continuations = %d '
+                              'cases; %d run (quick tier: wrapper 0 completely, every 5th case of the others)' % (
+                                  len(WRAPPERS), len(TEMPLATES), len(LAYOUTS), len(CONTINUATIONS), total,
+                                  m['extra'].get('product_enumerated', 0)))
